@@ -317,7 +317,7 @@ fn verif_c05_honest() {
         for &shards in shard_set {
             for (si, &n) in SIZES.iter().enumerate() {
                 for malicious in [false, true] {
-                    let reps = env.pick(1, 4);
+                    let reps = env.pick(1, 10);
                     for rep in 0..reps {
                         idx += 1;
                         // quick: thin out the grid deterministically
@@ -375,7 +375,7 @@ fn fault_sweep<R: Row>(rec: &mut Recorder, env: &vlib::Env, cfg_no: usize, n: us
     }
     // message faults
     // sparse worlds (fewer rows than shards) have few, tiny chunks: fault every one of them several times
-    let per_family = if n < shards { env.pick(8, 24) } else { env.pick(3, 8) };
+    let per_family = if n < shards { env.pick(8, 40) } else { env.pick(3, 24) };
     for ((fam, src), chunks) in &by_family {
         for k in 0..per_family.min(chunks.len() * 3) {
             *idx += 1;
@@ -389,6 +389,9 @@ fn fault_sweep<R: Row>(rec: &mut Recorder, env: &vlib::Env, cfg_no: usize, n: us
                 2 => Pattern::XorFf { byte: r.below(c.len.max(1) as u64) as usize },
                 _ => Pattern::FlipBit { byte: 0, bit: 0 },
             };
+            // A tampered row-count word makes the receiving helper allocate that many rows: a large value aborts the
+            // process on allocation failure (which cannot be caught in-process), so only small changes are injected there.
+            let pattern = if fam.contains("cardinality") { Pattern::FlipBit { byte: 0, bit: (k % 3) as u8 } } else { pattern };
             let fault = Fault { key: c.key.clone(), chunk_no: c.chunk_no, pattern };
             let (run, st2) = run_tapped::<R>(&case, Some(fault.clone()));
             if !matches!(st2.fault_applied, Some((_, true))) {
@@ -429,7 +432,7 @@ fn fault_sweep<R: Row>(rec: &mut Recorder, env: &vlib::Env, cfg_no: usize, n: us
         }
     }
     // held-row faults: the corrupt helper's own copy of one input share is altered
-    for k in 0..env.pick(6, 36) {
+    for k in 0..env.pick(6, 120) {
         *idx += 1;
         if !env.mine(*idx) || n == 0 {
             continue;
